@@ -408,6 +408,55 @@ theorem c01_errors_independent (cap : Nat) (res₁ res₂ : Ent → Res) (ns₁ 
   refine ⟨s₂, h2, ?_, hsim.2.2.2.2.2.2.2.2.2.2.2.2.2.2.2.2.2.symm, hsim.2.1.symm, hsim.2.2.2.2.1.symm⟩
   rw [← delivered_strip, ← hsim.2.2.2.2.2.2.2.2.2.2.2.2.2.2.2.2.2, delivered_strip]
 
+/-! ### The kind of an I/O error is not an input of the model
+
+`Res.io` has no kind: whatever `io::ErrorKind` the stream returns (Other, BrokenPipe, Interrupted, WouldBlock,
+TimedOut, WriteZero, UnexpectedEof, …) `consume` counts the error, logs it (rate-limited) and goes on with the
+next entry, so `c01_exactly_once`, `c01_per_producer_order` and `c01_errors_independent` hold for all kinds alike.
+Two decided witnesses that variants which *do* look at the kind are not refinements: -/
+
+/-- variant of the writer that offers an entry to the stream a second time when `next` fails with an I/O error
+(seeded: retry once on `Interrupted`) -/
+def wstepRetry (s : QState) (c : Clock) : Option QState :=
+  match s.wpc with
+  | .holding e _ => if s.res e = .io then (wstep s c).map fun s' => { s' with log := s'.log ++ [.next e .ok] } else wstep s c
+  | _ => wstep s c
+
+/-- variant that puts the entry back at the tail of the ring when `next` fails with an I/O error and there
+is room (seeded: `queue.push(entry)` on `Interrupted` / `WouldBlock`) -/
+def wstepRequeue (s : QState) (c : Clock) : Option QState :=
+  match s.wpc with
+  | .holding e _ =>
+    if s.res e = .io ∧ s.ring.length < s.cap ∧ e ∉ delivered s.log then
+      (wstep s c).map fun s' => { s' with ring := s'.ring ++ [e] }
+    else wstep s c
+  | _ => wstep s c
+
+def ioClock : Clock := ⟨false, false, false, false⟩
+
+def wrunWith (f : QState → Clock → Option QState) (c : Clock) : Nat → QState → QState
+  | 0, s => s
+  | n + 1, s => match f s c with
+    | some s' => wrunWith f c n s'
+    | none => s
+
+/-- two entries pushed, the first fails with an I/O error; then the writer runs alone -/
+def ioKindStart : Option QState :=
+  run (init 4 (fun e => if e.2 = 0 then .io else .ok) true) [.push 0, .push 0]
+
+/-- **Retry-on-kind violates exactly-once**: the real writer hands `[e0, e1]` to the stream, the retrying
+variant `[e0, e0, e1]`. -/
+theorem c01_retry_variant_violates :
+    ioKindStart.map (fun s => delivered (wrunWith wstep ioClock 8 s).log) = some [(0, 0), (0, 1)] ∧
+    ioKindStart.map (fun s => delivered (wrunWith wstepRetry ioClock 8 s).log) = some [(0, 0), (0, 0), (0, 1)] := by
+  decide
+
+/-- **Requeue-on-kind violates order (and exactly-once)**: the re-queued entry reaches the stream again,
+after the entry that was appended after it. -/
+theorem c01_requeue_variant_violates :
+    ioKindStart.map (fun s => delivered (wrunWith wstepRequeue ioClock 10 s).log) = some [(0, 0), (0, 1), (0, 0)] := by
+  decide
+
 /-! ### No lost wake-up -/
 
 /-- writer states from which it reaches `park` without looking at the ring again -/
@@ -553,6 +602,8 @@ end Queue
 #print axioms Queue.c01_limiter_bound
 #print axioms Queue.c01_limiter_closes
 #print axioms Queue.c01_limiter_catchup_violates
+#print axioms Queue.c01_retry_variant_violates
+#print axioms Queue.c01_requeue_variant_violates
 #print axioms Queue.c01_errors_independent
 #print axioms Queue.c01_no_lost_wakeup
 #print axioms Queue.c01_quiescent_all_delivered
